@@ -12,7 +12,8 @@ RULE = ("Vectors are int lists over Z/2^k; every result is compared as (coeffici
         "Non-trivial = dimensions differ, or both operands non-zero, or a non-empty selection.")
 ASSUMPTIONS = ["slices are generated in range with positive step (a negative step may be refused with ValueError; "
                "zero-extension by a stop beyond the end is crysp-specific and not generated)",
-               "pack(a,'>L') is only checked for dimension 1", "index lists for writes have no repeats"]
+               "pack(a,'>L') is only checked for dimension 1", "index lists for writes have no repeats",
+               "pack lays each coefficient out over ceil(k/8) bytes (the behaviour of the pinned tree for ring sizes that are not a multiple of 8)"]
 
 BIN = {"+": operator.add, "-": operator.sub, "^": operator.xor, "&": operator.and_, "|": operator.or_}
 
@@ -208,8 +209,9 @@ def index_strategy(tier):
 
     def for_ring(k):
         def for_dim(n):
-            arg = gen.pick((1, st.none()), (4, gen.uint(-n, n)))
-            sl = st.tuples(arg, arg, st.sampled_from([None, 1, 1, 2, 3, -1])).map(lambda t: ("slice", t))
+            start = gen.pick((1, st.none()), (4, gen.uint(-n, n)), (2, st.sampled_from([-n - 1, -n - 2, -n - 5, n + 1, n + 3])))
+            stop = gen.pick((1, st.none()), (4, gen.uint(-n, n)), (1, st.sampled_from([-n - 1, -n - 3])))      # never beyond the end
+            sl = st.tuples(start, stop, st.sampled_from([None, 1, 1, 2, 3, -1])).map(lambda t: ("slice", t))
             it = gen.uint(-n, n - 1).map(lambda i: ("int", i))
             perm = st.permutations(range(n)).flatmap(
                 lambda p: st.tuples(gen.uint(0, n), st.booleans(), st.booleans()).map(
@@ -234,12 +236,13 @@ def index_cases(tier, rnd):
     k = 2
     top = 3 if tier == "quick" else 4
     for n in range(1, top + 1):
-        args = [None] + list(range(-n, n + 1))
+        starts = [None] + list(range(-n - 3, n + 4))
+        stops = [None] + list(range(-n - 3, n + 1))          # a stop beyond the end zero-extends (crysp-specific): not generated
         a = tuple(rnd.randrange(1 << k) for _ in range(n))
         newv = tuple(rnd.randrange(1 << k) for _ in range(n))
         for i in range(-n, n):
             yield {"k": k, "a": a, "kind": "int", "idx": i, "write": {"form": "list", "vals": newv}}
-        for s in itertools.product(args, args, [None, 1, 2, 3]):
+        for s in itertools.product(starts, stops, [None, 1, 2, 3]):
             yield {"k": k, "a": a, "kind": "slice", "idx": s,
                    "write": {"form": ["list", "tuple", "Poly", "bytes", "Bits"][(hash(s[2]) + n) % 5], "vals": newv}}
         for L in range(0, n + 1):
@@ -276,7 +279,7 @@ def check_chunk(c):
         if k2 != k:
             is_poly(A, a, k, "split:operand-changed")
     elif what == "pack":
-        nb = k // 8
+        nb = (k + 7) // 8          # little-endian layout of each coefficient over ceil(k/8) bytes
         exp = b"".join(x.to_bytes(nb, "little") for x in a)
         eq(guard(pack, A), exp, "pack")
         eq(guard(pack, A, "<L"), exp, "pack('<L')")
@@ -312,7 +315,7 @@ def chunk_strategy(tier):
         return st.builds(lambda a, k2, big: {"k": k, "a": a, "what": "split", "k2": k2, "bigend": big},
                          dims().flatmap(lambda d: coeffs(k, d)), st.sampled_from(divs + [k]), st.booleans())
     sp = st.sampled_from([2, 4, 6, 8, 12, 16, 24, 32, 48, 64]).flatmap(split_case)
-    pk = st.sampled_from([8, 16, 24, 32, 40, 64]).flatmap(
+    pk = gen.pick((2, st.sampled_from([8, 16, 24, 32, 40, 64])), (2, gen.uint(1, 64))).flatmap(
         lambda k: dims().flatmap(lambda d: coeffs(k, d)).map(lambda a: {"k": k, "a": a, "what": "pack"}))
     by = dims().flatmap(lambda d: coeffs(8, d)).map(lambda a: {"k": 8, "a": a, "what": "bytes"})
     ct = st.sampled_from(RINGS).flatmap(lambda k: st.builds(
@@ -331,7 +334,7 @@ def check_history(c):
     for op in c["ops"]:
         kind = op[0]
         n = len(cur)
-        clamp = lambda t: tuple(v if v is None or j == 2 else max(-n, min(n, v)) for j, v in enumerate(t))
+        clamp = lambda t: tuple(v if v is None or j == 2 else (v if j == 0 else min(n, v)) for j, v in enumerate(t))
         if kind == "set":
             if n == 0:
                 continue
@@ -372,9 +375,9 @@ def check_history(c):
                 exp += pieces[::-1] if big else pieces
             is_poly(r, exp, k2, "history:split")
         elif kind == "pack":
-            if k == 0 or k % 8:
+            if k == 0:
                 continue
-            eq(guard(pack, A), b"".join(x.to_bytes(k // 8, "little") for x in cur), "history:pack")
+            eq(guard(pack, A), b"".join(x.to_bytes((k + 7) // 8, "little") for x in cur), "history:pack")
         elif kind == "read":
             sl = slice(*clamp(op[1]))
             is_poly(guard(operator.getitem, A, sl), cur[sl], k, "history:read[slice]")
@@ -435,14 +438,14 @@ FACETS = [
           rule="same rings: neg, a+(-a), shifts"),
     Facet("index-exhaustive", check_index, cases=index_cases, exhaustive=True, distinct=True,
           nontrivial=nontriv_index, classify=classify_index, shards={"quick": 4, "thorough": 8},
-          rule="Z/4, dimension 1..3 (1..4): every int index, every slice (start/stop in {None,-n..n}, step in {None,1,2,3}), every index "
+          rule="Z/4, dimension 1..3 (1..4): every int index, every slice (start in {None,-n-3..n+3}, stop in {None,-n-3..n}, step in {None,1,2,3}), every index "
                "list/tuple of length <= n incl. repeats and negative entries; read, then write through it"),
     Facet("index-sampled", check_index, strategy=index_strategy, budget={"quick": 5000, "thorough": 100000}, fuzz={"thorough": 100000},
           nontrivial=nontriv_index, classify=classify_index,
           rule="all rings, dimension 1..20, int/slice/list/tuple indices, writes with list/tuple/Poly/bytes/Bits values"),
     Facet("chunking", check_chunk, strategy=chunk_strategy, budget={"quick": 3000, "thorough": 60000},
           nontrivial=lambda c: len(c["a"]) > 0, classify=lambda c: (c["what"],) + (("bigend",) if c.get("bigend") else ()),
-          rule="split(k') for every divisor k' of k (both endians), pack for k in {8..64}, Poly(bytes), constructors with dim"),
+          rule="split(k') for every divisor k' of k (both endians), pack for every ring size 1..64, Poly(bytes), constructors with dim"),
     Facet("observe-mutate-histories", check_history, strategy=history_strategy, budget={"quick": 3000, "thorough": 60000},
           nontrivial=lambda c: len(c["ops"]) >= 2,
           classify=lambda c: tuple(sorted(set(o[0] for o in c["ops"]))),
